@@ -30,6 +30,7 @@ const char *charRet(int n) {
     std::memcpy(g_char_buf, p.c_str(), n + 1);
     return g_char_buf;
 }
+const char *charRetLen(int n) { return charRet(n); }
 void charInout(char *s) { Guard g; for (; *s; s++) if (*s >= 'a' && *s <= 'z') *s = static_cast<char>(*s - 32); }
 void charGrow(char *s) { Guard g; std::strcat(s, "!!"); }
 int charArrLen(char **names, int n) { Guard g; int t = 0; for (int i = 0; i < n; i++) if (names[i]) t += static_cast<int>(std::strlen(names[i])) + 100; return t; }
